@@ -124,6 +124,18 @@ def selectpP : P String := do
   let me ← nat; let l ← listOf keyPrio
   pure ("B " ++ joinNat ((selectBatch me l).map (·.1))).trimAsciiEnd.toString
 
+/-- the same two with the batch reported as a set (sorted keys): used when several workers run the
+    batch, so that the order of the invocations is not the queue order -/
+def selectSetP : P String := do
+  let me ← nat; let pk ← nat; let clock ← int; let jobs ← listOf keyDueW
+  let kind : PrioKind := if pk == 0 then .linear else .constant
+  let l := jobs.map (fun j => (j.1, prioOf kind (clock - j.2.1) j.2.2))
+  pure ("B " ++ joinNat (sortKeys ((selectBatch me l).map (·.1)))).trimAsciiEnd.toString
+
+def selectpSetP : P String := do
+  let me ← nat; let l ← listOf keyPrio
+  pure ("B " ++ joinNat (sortKeys ((selectBatch me l).map (·.1)))).trimAsciiEnd.toString
+
 /-- `cutoff <w> <tail> <n> <cp>*` : the model's `str_cutoff` -/
 def cutoffP : P String := do
   let w ← nat; let tail ← bool; let sv ← listOf nat
